@@ -1,5 +1,6 @@
 import Ekit.MiniGo.RBOrder
 import Ekit.Lemmas.RBSorted
+import Ekit.Lemmas.RBPtrSize
 namespace Ekit.MiniGo.RBHeap.AddN
 open Ekit.MiniGo Ekit.Gen.RBTreeGo
 
@@ -876,5 +877,195 @@ theorem addNode_ord (cmpF : Int → Int → Int) (hLaw : Ekit.RB.LawfulCmp cmpF)
       simp at h
       obtain ⟨_, rfl⟩ := h
       exact ⟨t1, hH1, hO1⟩
+
+/-! ### size -/
+
+theorem link_left_len {st : St} {t : PT} {p : Nat} (hH : Holds st t)
+    (hp : p ∈ t.addrs) (hl : (st.h p).left = none) (h' : Nat → Node) (sz : Int)
+    (hf' : (h' st.alloc).left = none ∧ (h' st.alloc).right = none ∧ (h' st.alloc).parent = some p)
+    (hp' : (h' p).left = some st.alloc ∧ (h' p).right = (st.h p).right ∧ (h' p).parent = (st.h p).parent)
+    (hoth : ∀ b, b ≠ p → b ≠ st.alloc → h' b = st.h b) :
+    ∃ t', Holds ⟨h', st.alloc + 1, st.root, sz⟩ t' ∧ st.alloc ∈ t'.addrs ∧
+      t'.addrs.length = t.addrs.length + 1 := by
+  obtain ⟨t', a, b, pre, post, e1, e2⟩ := link_left' hH hp hl h' sz hf' hp' hoth
+  exact ⟨t', a, b, by rw [e1, e2]; simp; omega⟩
+
+theorem link_right_len {st : St} {t : PT} {p : Nat} (hH : Holds st t)
+    (hp : p ∈ t.addrs) (hl : (st.h p).right = none) (h' : Nat → Node) (sz : Int)
+    (hf' : (h' st.alloc).left = none ∧ (h' st.alloc).right = none ∧ (h' st.alloc).parent = some p)
+    (hp' : (h' p).right = some st.alloc ∧ (h' p).left = (st.h p).left ∧ (h' p).parent = (st.h p).parent)
+    (hoth : ∀ b, b ≠ p → b ≠ st.alloc → h' b = st.h b) :
+    ∃ t', Holds ⟨h', st.alloc + 1, st.root, sz⟩ t' ∧ st.alloc ∈ t'.addrs ∧
+      t'.addrs.length = t.addrs.length + 1 := by
+  obtain ⟨t', a, b, pre, post, e1, e2⟩ := link_right' hH hp hl h' sz hf' hp' hoth
+  exact ⟨t', a, b, by rw [e1, e2]; simp; omega⟩
+
+section
+variable (cmpF : Int → Int → Int) (callH : CallH PName) (lf : Nat)
+
+theorem after_spec3 (ρ : Env) (st : St) (t : PT) (m : Nat) (hH : Holds st t) (h0 : ρ 0 = .ptr (some m))
+    (hg : Good t ρ st) (fl : Flow) (ρ' : Env) (st' : St)
+    (h : exec cmpF callH lf ρ st afterL = .ok (fl, ρ', st')) :
+    fl = .normal ∧ st'.size = st.size ∧
+      ∃ t', Holds st' t' ∧ PtrIn t'.addrs (ρ' 1) ∧ t'.addrs.length = t.addrs.length + 1 := by
+  obtain ⟨p, c, h4, h3, hp, hl, hr⟩ := hg
+  simp only [afterL, exec, evalE, set_apply, h0, h4, h3, Node.get] at h
+  simp [h0, h4, h3] at h
+  have hpA : p ≠ st.alloc := Nat.ne_of_lt (hH.2.2 p hp)
+  by_cases h1 : c < 0
+  · simp [h1, Node.set] at h
+    obtain ⟨rfl, rfl, rfl⟩ := h
+    refine ⟨rfl, rfl, ?_⟩
+    simp only [set_apply, PtrIn, if_true]
+    exact link_left_len hH hp (hl h1) _ _ (by simp [upd, hpA.symm])
+      (by simp [upd, hpA]) (fun b hb1 hb2 => by simp [upd, hb1, hb2])
+  · simp [h1, Node.set] at h
+    obtain ⟨rfl, rfl, rfl⟩ := h
+    refine ⟨rfl, rfl, ?_⟩
+    simp only [set_apply, PtrIn, if_true]
+    exact link_right_len hH hp (hr h1) _ _ (by simp [upd, hpA.symm])
+      (by simp [upd, hpA]) (fun b hb1 hb2 => by simp [upd, hb1, hb2])
+
+theorem else_spec3 (ρ : Env) (st : St) (t : PT) (m : Nat) (hH : Holds st t)
+    (hS : st.size = (t.addrs.length : Int)) (hroot : st.root ≠ none)
+    (h0 : ρ 0 = .ptr (some m)) (fl : Flow) (ρ' : Env) (st' : St)
+    (h : exec cmpF callH lf ρ st elseB = .ok (fl, ρ', st')) :
+    ∃ t', Holds st' t' ∧
+      (fl = .normal → PtrIn t'.addrs (ρ' 1) ∧ st'.size + 1 = (t'.addrs.length : Int)) ∧
+      (fl ≠ .normal → st'.size = (t'.addrs.length : Int)) := by
+  simp only [elseB, exec, evalE] at h
+  have hH1 : Holds ⟨upd st.h st.alloc {}, st.alloc + 1, st.root, st.size⟩ t := holds_alloc hH {} st.size
+  have hq : ∀ a, st.root = some a → a ∈ t.addrs := by
+    intro a ha
+    have := repr_ptr hH.1
+    rw [ha] at this
+    cases t with
+    | leaf => simp [PT.ptr] at this
+    | node l b r => simp [PT.ptr] at this; subst this; simp [PT.addrs]
+  have hinv := loop_inv cmpF callH lf _ t hH1 m lf
+    (((ρ.set 2 (.ptr st.root)).set 3 (.int 0)).set 4 (.ptr (some st.alloc))) st.root
+    (by simp [set_apply, h0]) (by simp [set_apply]) hq (fun hn => absurd hn hroot)
+  split at h
+  · rename_i ρ1 st1 heq
+    obtain ⟨rfl, hg⟩ := hinv _ _ _ heq
+    obtain ⟨hgood, h0'⟩ := hg rfl
+    obtain ⟨hfl, hsz, t', ht', hp, hlen⟩ := after_spec3 cmpF callH lf _ _ t m hH1 h0' hgood _ _ _ h
+    refine ⟨t', ht', fun _ => ⟨hp, ?_⟩, fun hf => absurd hfl hf⟩
+    rw [hsz, hlen]; simp only []; omega
+  · rename_i r hne heq
+    cases h
+    obtain ⟨rfl, _⟩ := hinv _ _ _ heq
+    exact ⟨t, hH1, fun hf => absurd rfl (hf ▸ hne _ _), fun _ => hS⟩
+  · cases h
+end
+
+section
+variable (cmpF : Int → Int → Int) (callH : CallH PName) (lf : Nat)
+
+theorem then_spec3
+    (hNew : ∀ args st v st' t, Holds st t → callH .newRBNode args st = .ok (v, st') →
+       ∃ n, v = .ptr (some n) ∧ n ∉ t.addrs ∧ n < st'.alloc ∧ Holds st' t ∧
+            (st'.h n).left = none ∧ (st'.h n).right = none ∧ (st'.h n).parent = none ∧
+            (∀ a, a ≠ n → (st'.h a).key = (st.h a).key))
+    (hSz : ∀ fn, isNoSize fn = true → SpecNoSize callH fn)
+    (ρ : Env) (st : St) (t : PT) (m : Nat) (hH : Holds st t)
+    (hS : st.size = (t.addrs.length : Int)) (hroot : st.root = none)
+    (h0 : ρ 0 = .ptr (some m)) (fl : Flow) (ρ' : Env) (st' : St)
+    (h : exec cmpF callH lf ρ st thenB = .ok (fl, ρ', st')) :
+    ∃ t', Holds st' t' ∧
+      (fl = .normal → PtrIn t'.addrs (ρ' 1) ∧ st'.size + 1 = (t'.addrs.length : Int)) ∧
+      (fl ≠ .normal → st'.size = (t'.addrs.length : Int)) := by
+  simp only [thenB, exec, evalE, h0, Node.get] at h
+  cases hc : callH PName.newRBNode [Val.int (st.h m).key, Val.int (st.h m).value] st with
+  | error e => rw [hc] at h; simp at h
+  | ok r =>
+    obtain ⟨v, s1⟩ := r
+    rw [hc] at h
+    obtain ⟨n, rfl, hn, hlt, hH', f1, f2, f3, _⟩ := hNew _ _ _ _ _ hH hc
+    have hsz : s1.size = st.size := hSz .newRBNode rfl _ _ _ _ hc
+    simp at h
+    obtain ⟨rfl, rfl, rfl⟩ := h
+    have ht : t = .leaf := holds_root_none hH hroot
+    subst ht
+    refine ⟨.node .leaf n .leaf, ⟨?_, ?_, ?_⟩, fun _ => ⟨?_, ?_⟩, fun hf => absurd rfl hf⟩
+    · simp [Repr, f1, f2, f3]
+    · simp [PT.addrs]
+    · simp [PT.addrs, hlt]
+    · simp [set_apply, PtrIn, PT.addrs]
+    · simp only [hsz, hS]; simp [PT.addrs]
+
+theorem tail_spec3 (hK : ∀ fn, isK fn = true → SpecK callH fn)
+    (hSz : ∀ fn, isNoSize fn = true → SpecNoSize callH fn)
+    (ρ : Env) (st : St) (t : PT) (hH : Holds st t) (hS : st.size + 1 = (t.addrs.length : Int))
+    (hp : PtrIn t.addrs (ρ 1))
+    (fl : Flow) (ρ' : Env) (st' : St)
+    (h : exec cmpF callH lf ρ st tailS = .ok (fl, ρ', st')) :
+    ∃ t', Holds st' t' ∧ st'.size = (t'.addrs.length : Int) := by
+  simp only [tailS, exec, evalE] at h
+  cases hc : callH PName.fixAfterAdd [ρ 1] { st with size := st.size + 1 } with
+  | error e => rw [hc] at h; simp at h
+  | ok r =>
+    obtain ⟨v, s1⟩ := r
+    rw [hc] at h
+    simp at h
+    obtain ⟨_, _, rfl⟩ := h
+    have hH' : Holds { st with size := st.size + 1 } t := hH
+    have hsz : s1.size = st.size + 1 := hSz .fixAfterAdd rfl _ _ _ _ hc
+    obtain ⟨t', ht', hpres, _⟩ := hK .fixAfterAdd rfl _ _ _ _ t hH' (by simpa using hp) hc
+    exact ⟨t', ht', by rw [hsz, hpres.addrs]; exact hS⟩
+end
+
+theorem addNode_size (cmpF : Int → Int → Int) (callH : CallH PName) (lf : Nat)
+    (hK : ∀ fn, isK fn = true → SpecK callH fn)
+    (hNew : ∀ args st v st' t, Holds st t → callH .newRBNode args st = .ok (v, st') →
+       ∃ n, v = .ptr (some n) ∧ n ∉ t.addrs ∧ n < st'.alloc ∧ Holds st' t ∧
+            (st'.h n).left = none ∧ (st'.h n).right = none ∧ (st'.h n).parent = none ∧
+            (∀ a, a ≠ n → (st'.h a).key = (st.h a).key))
+    (hSz : ∀ fn, isNoSize fn = true → SpecNoSize callH fn) :
+    ∀ n st v st' t, Holds st t → st.size = (t.addrs.length : Int) →
+      runBody cmpF callH lf (procs .addNode) [.ptr (some n)] st = .ok (v, st') →
+      ∃ t', Holds st' t' ∧ st'.size = (t'.addrs.length : Int) := by
+  intro n st v st' t hH hS h
+  simp only [runBody, procs, body_addNode_eq, exec, evalE] at h
+  have h0 : ((Env.ofArgs [Val.ptr (some n)]).set 1 (Val.ptr none)) 0 = .ptr (some n) := by
+    simp [set_apply, Env.ofArgs]
+  have hmid : ∀ fl ρ' s', exec cmpF callH lf ((Env.ofArgs [Val.ptr (some n)]).set 1 (Val.ptr none)) st midS
+        = .ok (fl, ρ', s') →
+      ∃ t', Holds s' t' ∧
+        (fl = .normal → PtrIn t'.addrs (ρ' 1) ∧ s'.size + 1 = (t'.addrs.length : Int)) ∧
+        (fl ≠ .normal → s'.size = (t'.addrs.length : Int)) := by
+    intro fl ρ' s' hEq
+    simp only [midS, exec, evalE] at hEq
+    cases hr : st.root with
+    | none =>
+      simp [valEq, hr] at hEq
+      exact then_spec3 cmpF callH lf hNew hSz _ st t n hH hS hr h0 _ _ _ hEq
+    | some a =>
+      simp [valEq, hr] at hEq
+      exact else_spec3 cmpF callH lf _ st t n hH hS (by simp [hr]) h0 _ _ _ hEq
+  generalize exec cmpF callH lf ((Env.ofArgs [Val.ptr (some n)]).set 1 (Val.ptr none)) st midS = E at h hmid
+  match E, hmid with
+  | .error e, _ => simp at h
+  | .ok (fl, ρ1, s1), hmid =>
+    obtain ⟨t1, hH1, hn1, hr1⟩ := hmid _ _ _ rfl
+    cases fl with
+    | normal =>
+      simp only at h
+      obtain ⟨hp1, hs1⟩ := hn1 rfl
+      cases hx : exec cmpF callH lf ρ1 s1 tailS with
+      | error e => rw [hx] at h; simp at h
+      | ok r =>
+        obtain ⟨fl2, ρ2, s2⟩ := r
+        obtain ⟨t2, hH2⟩ := tail_spec3 cmpF callH lf hK hSz ρ1 s1 t1 hH1 hs1 hp1 _ _ _ hx
+        rw [hx] at h
+        cases fl2 <;> simp at h
+        · obtain ⟨_, rfl⟩ := h; exact ⟨t2, hH2⟩
+        · obtain ⟨_, rfl⟩ := h; exact ⟨t2, hH2⟩
+    | cont => simp at h
+    | brk => simp at h
+    | ret w =>
+      simp at h
+      obtain ⟨_, rfl⟩ := h
+      exact ⟨t1, hH1, hr1 (by simp)⟩
 
 end Ekit.MiniGo.RBHeap.AddN
